@@ -1,9 +1,33 @@
-import Lean.Data.Json
-/-! Driver handlers for property C11: `handle op request` answers one JSON request. -/
-namespace Pydjinni.Drv.C11
-open Lean
+import PydjinniModel.Drv.C05
+import PydjinniModel.Props.C11Closed
+/-! Driver handlers for property C11: `handle op request` answers one JSON request.
 
-def handle (op : String) (_req : Json) : Except String Json :=
-  throw s!"unknown op {op}"
+`c11.closed`: is the program of a front request (files in finish order) dependency-closed in the sense of
+`Props/C11Closed.lean` (`Closed`, decidable)? For closed programs `violationsOrdered_eq_violations_of_closed` and
+`split_invariance` apply: what is reported is invariant under re-partitioning into files and reordering. -/
+namespace Pydjinni.Drv.C11
+open Lean Pydjinni.Front Pydjinni.Drv.FrontJson Pydjinni.Drv.C05
+
+def closed (req : Json) : Except String Json := do
+  let cfg ← req.getObjVal? "cfg" >>= decodeCfg
+  let files ← req.getObjValAs? (Array Json) "files"
+  let fs ← files.toList.mapM decodeFile
+  let bs ← req.getObjValAs? (Array Json) "builtins"
+  let builtins ← bs.toList.mapM decodeDef
+  let root ← req.getObjValAs? String "root"
+  match programInOrder cfg fs (parsePath root).2 with
+  | none => pure (Json.mkObj [("syntax", true)])
+  | some prog =>
+    let pre := builtins ++ extRegistry fs
+    let ordered := violationsOrdered cfg.keys cfg.defaultDeriving pre prog
+    let whole := violations cfg.keys cfg.defaultDeriving pre prog
+    pure (Json.mkObj [("syntax", false), ("closed", decide (Closed pre prog)), ("files", prog.length),
+      ("ordered", ordered.length), ("whole", whole.length),
+      ("same", ordered.map (fun d => (d.cls, d.rule, d.file, d.pos.sl, d.pos.sc)) == whole.map (fun d => (d.cls, d.rule, d.file, d.pos.sl, d.pos.sc)))])
+
+def handle (op : String) (req : Json) : Except String Json :=
+  match op with
+  | "c11.closed" => closed req
+  | _ => throw s!"unknown op {op}"
 
 end Pydjinni.Drv.C11
